@@ -100,6 +100,7 @@ Clause(r, c) ==
                                         /\ PiecesAre(m, m.length))
     \* ---- group clauses (C08 / C10 / C20): equality with the first member ---------
     [] c = "C10.creators" -> ~InGrp(r) \/ (m.infohash1 = grp.info /\ m.layers_sig = grp.layers)
+    [] c = "C08.name" -> m.name = r.name
     [] c = "C08.info" -> ~InGrp(r) \/ m.infohash1 = grp.info
     [] c = "C08.rest" -> ~InGrp(r) \/ ~(r.outer = grp.outer) \/ m.rest_sig = grp.rest
     [] OTHER -> FALSE
@@ -133,7 +134,19 @@ HasherClause(r, c) ==
                  /\ r.hashers[k].yieldsig = r.hashers[k].layersig
        [] OTHER -> FALSE
 
-Eval(r, c) == IF r.op = "hashers" THEN HasherClause(r, c) ELSE Holds(r, c)
+\* C09: each step of a history gives what a fresh interpreter gives on the same filesystem state,
+\* and a created metafile describes the CURRENT tree (the reference clauses of C01 / C02 / C03)
+SysClause(r, c) ==
+  CASE c = "C09.fresh" -> r.status = r.fresh_status /\ r.sig = r.fresh_sig
+    [] c = "C09.create" ->
+         IF r.version = 1 THEN Holds(r, "C01.list") /\ Holds(r, "C01.pieces")
+         ELSE /\ Holds(r, "C02.tree") /\ Holds(r, "C02.root") /\ Holds(r, "C02.empty") /\ Holds(r, "C02.layers")
+              /\ (r.version = 3 => (Holds(r, "C03.order") /\ Holds(r, "C03.pieces")))
+    [] OTHER -> FALSE
+
+Eval(r, c) == IF r.op = "hashers" THEN HasherClause(r, c)
+              ELSE IF c \in {"C09.fresh", "C09.create"} THEN SysClause(r, c)
+              ELSE Holds(r, c)
 
 \* IF (not \/): inside an action TLC would explore both disjuncts and print regardless
 Report(r) == \A k \in DOMAIN r.clauses :
